@@ -1,7 +1,7 @@
 SPECIFICATION Spec
 CONSTANTS
   CfgKeys = {"c1", "c2", "c3"}
-  Vals = {"1Ki", "1Z", "1Zi", "1Y", "1Yi", "1k", "010", "64", "9"}
+  Vals = {"1Ki", "1Z", "1Zi", "1Y", "1Yi", "1k", "010", "64", "9", ".5k"}
   Bases = {"N1", "N2"}
   XVals = {"", "s1", "s2"}
   XYVals = {""}
